@@ -8,7 +8,7 @@ use serde_json::{json, Value};
 
 const NAMES: &[&str] = &["a", "b", "div", "p", "br", "img", "verylongtagname12", "svg", "path", "g", "x-y", "H1"];
 const ATTR_NAMES: &[&str] = &["x", "y", "data-z", "id", "class"];
-const VALUES: &[&str] = &["", "p", "q", "p q", "P", "p-q", "pp", "qp", "p  q", "-p", "Pq", "x y z"];
+const VALUES: &[&str] = &["", "p", "q", "p q", "P", "p-q", "pp", "qp", "p  q", "-p", "Pq", "x y z", "bar", "babar", "bbar", "aab", "aaab", "xAAAB", "ab", "abab", "a-b-c", " p", "q "];
 const IDENTS: &[&str] = &["p", "q", "P", "pp", "p-q"];
 
 fn b(s: &str) -> Vec<u8> { s.as_bytes().to_vec() }
@@ -165,6 +165,61 @@ fn invocations(tl: &[Value], offs: &[usize]) -> Vec<Value> {
     v
 }
 
+/// one attribute selector on a document that carries every value of the pool
+fn attr_family(rng: &mut Rng, idx: usize) -> (Vec<Value>, Vec<Value>, Vec<u8>, Vec<usize>) {
+    const OPS: &[&str] = &["=", "~=", "|=", "^=", "$=", "*="];
+    const OPERANDS: &[&str] = &["", "p", "P", "q", "pp", "bar", "ab", "aab", "AAB", "a-b", "p q", "-p", "b"];
+    let op = OPS[idx % OPS.len()];
+    let cs = ["", "i", "s"][(idx / OPS.len()) % 3];
+    let v = OPERANDS[(idx / (OPS.len() * 3)) % OPERANDS.len()];
+    let mut comp = vec![json!({"t":"attr","n":b("x"),"op":op,"v":b(v),"cs":cs})];
+    if rng.chance(1, 3) { comp.insert(0, json!({"t":"type","n":b("a")})); }
+    let sel = if rng.chance(1, 4) { json!([[{"comb":"","comp":[{"t":"univ"},{"t":"not","args":[comp]}]}]]) } else { json!([[{"comb":"","comp":comp}]]) };
+    let mut tags = Vec::new(); let mut html = Vec::new(); let mut offs = Vec::new();
+    for (i, val) in VALUES.iter().enumerate() {
+        let name = if i % 5 == 4 { "b" } else { "a" };
+        offs.push(html.len());
+        let an = if i % 7 == 3 { "X" } else { "x" };
+        html.extend_from_slice(format!("<{name} {an}=\"{val}\">").as_bytes());
+        tags.push(json!({"k":"st","n":b(name),"attrs":[[b(an), b(val)]],"sc":false,"ns":"html"}));
+        if i % 3 == 0 { offs.push(html.len()); html.extend_from_slice(format!("</{name}>").as_bytes()); tags.push(json!({"k":"et","n":b(name)})); }
+    }
+    (vec![sel], tags, html, offs)
+}
+
+/// positional selectors on deeply nested documents with end tags that close several levels at once
+fn nth_family(rng: &mut Rng) -> (Vec<Value>, Vec<Value>, Vec<u8>, Vec<usize>) {
+    let names = ["a", "b", "section"];
+    let mut sels = Vec::new();
+    for _ in 0..(1 + rng.below(3)) {
+        let a = *rng.pick(&[0i64, 0, 1, 2, -1, 3]);
+        let bb = *rng.pick(&[1i64, 1, 2, 3, 0, -1]);
+        let mut comp = Vec::new();
+        if rng.chance(2, 3) { comp.push(json!({"t":"type","n":b(*rng.pick(&names))})); }
+        comp.push(json!({"t":"nth","oftype":rng.chance(2, 3),"a":a,"b":bb}));
+        let mut cx = vec![json!({"comb":"","comp":comp})];
+        if rng.chance(1, 3) { cx.insert(0, json!({"comb":"","comp":[{"t":"type","n":b(*rng.pick(&names))}]})); cx[1]["comb"] = json!(*rng.pick(&[">", " "])); }
+        sels.push(json!([cx]));
+    }
+    let mut tags = Vec::new(); let mut html = Vec::new(); let mut offs = Vec::new();
+    let mut open: Vec<&str> = Vec::new();
+    for _ in 0..(4 + rng.below(10)) {
+        if open.len() < 5 && rng.chance(3, 5) {
+            let nm = *rng.pick(&names);
+            offs.push(html.len()); html.extend_from_slice(format!("<{nm}>").as_bytes());
+            tags.push(json!({"k":"st","n":b(nm),"attrs":[],"sc":false,"ns":"html"})); open.push(nm);
+        } else if !open.is_empty() {
+            // close an element at a random depth: everything inside it is closed implicitly
+            let k = if rng.chance(1, 2) { open.len() - 1 } else { rng.below(open.len()) };
+            let nm = open[k]; 
+            if let Some(p) = open.iter().rposition(|&o| o == nm) { open.truncate(p); }
+            offs.push(html.len()); html.extend_from_slice(format!("</{nm}>").as_bytes());
+            tags.push(json!({"k":"et","n":b(nm)}));
+        }
+    }
+    (sels, tags, html, offs)
+}
+
 pub fn job_c04(out_dir: &str, tier: &str, seed: u64) {
     let quick = tier == "quick";
     let mut rng = Rng::new(seed ^ 0xC04);
@@ -172,11 +227,20 @@ pub fn job_c04(out_dir: &str, tier: &str, seed: u64) {
     let npairs = if quick { 6000 } else { 200000 };
     let mut n = 0usize;
     let mut unparsable = 0usize;
-    for _ in 0..npairs {
-        let nsel = 1 + rng.below(3);
-        let sels: Vec<Value> = (0..nsel).map(|_| gen_selector(&mut rng)).collect();
+    for case in 0..npairs {
+        let family = case % 4;
+        let (sels, mut tags, html, offs) = match family {
+            0 => attr_family(&mut rng, case / 4),
+            1 => nth_family(&mut rng),
+            _ => {
+                let nsel = 1 + rng.below(3);
+                let sels: Vec<Value> = (0..nsel).map(|_| gen_selector(&mut rng)).collect();
+                let (tags, html, offs) = gen_doc(&mut rng, 9);
+                (sels, tags, html, offs)
+            }
+        };
+        let nsel = sels.len();
         let css: Vec<String> = sels.iter().map(render_selector).collect();
-        let (mut tags, html, offs) = gen_doc(&mut rng, 9);
         // namespaces (needed for "self-closing closes a foreign element") as lol-html itself reports them
         let probe = json!({"elem":[{"sel":"*","element":[]}],"strict":false});
         let ptl = driver::run(&probe, &html, &[], &RunOpts::default());
